@@ -34,6 +34,10 @@ type C13Case struct {
 	Prog      gen.ProgCase `json:"prog"`
 	BreakFile int          `json:"break_file"` // >= 0: one compile error injected into that file
 	BreakKind int          `json:"break_kind,omitempty"`
+	// DupGlobals: the same globals are added to the bundle twice
+	DupGlobals bool `json:"dup_globals,omitempty"`
+	// JSFail > 0: file (JSFail-1) gets a template that compiles but has no JavaScript translation
+	JSFail int `json:"js_fail,omitempty"`
 	// SyntaxErrors: files that get an (independent) syntax error each. With two or more, the error text
 	// may depend on the file order - but never on the repetition or the process.
 	SyntaxErrors []int `json:"syntax_errors,omitempty"`
@@ -42,7 +46,7 @@ type C13Case struct {
 	TrickyKeys bool `json:"tricky_keys,omitempty"`
 }
 
-const c13TrickyKeys = "\n/** */\n{template .zzKeys}{let $zzm: ['k\xfe': 1, 'k\xff': 2, 'k': 3, 'kz': 4, '\xc3': 5, '\xe9': 6, 'é': 7, '～': 8, '𐀀': 9, 'K': 10, '': 11, 'k\xfd\xfe': 12] /}{$zzm['kz']}{$zzm['k']}{/template}\n"
+const c13TrickyKeys = "\n/** */\n{template .zzKeys}{let $zzm: ['k\xfe': 1, 'k\xff': 2, 'k': 3, 'kz': 4, '\xc3': 5, '\xe9': 6, 'é': 7, '～': 8, '𐀀': 9, 'K': 10, '': 11, 'k\xfd\xfe': 12] /}{$zzm['kz']}{$zzm['k']}{foreach $zzk in keys($zzm)}{$zzk},{/foreach}{/template}\n"
 
 func placeholderNames(m *ast.MsgNode) string {
 	var names []string
@@ -109,12 +113,31 @@ func artefact2(c C13Case, order []int) (art string, imports int, suffixed bool, 
 					srcs[k] += "\n/** @param? zzUndeclared */\n{template .zzCand}{$zzUndeclared ?: 'c'}{/template}\n"
 				}
 			}
+		case 8:
+			// (two further files define one template: see below)
+		case 4:
+			// one error that names several things at once: required params that a call leaves out
+			srcs[c.BreakFile] += "\n/** */\n{template .zzBroken}{call .zzNeeds /}{/template}\n/**\n * @param title\n * @param body\n * @param footer\n * @param aside\n */\n{template .zzNeeds}{$title}{$body}{$footer}{$aside}{/template}\n"
+		case 5:
+			// ... params that the callee does not declare
+			srcs[c.BreakFile] += "\n/** */\n{template .zzBroken}{call .zzNeeds}{param title: 1 /}{param body: 2 /}{param footer: 3 /}{param aside: 4 /}{/call}{/template}\n/** */\n{template .zzNeeds}x{/template}\n"
+		case 6:
+			// ... params that the template does not use
+			srcs[c.BreakFile] += "\n/**\n * @param title\n * @param body\n * @param footer\n * @param aside\n */\n{template .zzBroken}x{/template}\n"
+		case 7:
+			// ... names that nothing declares
+			srcs[c.BreakFile] += "\n/** */\n{template .zzBroken}{$title}{$body}{$footer}{$aside}{/template}\n"
 		default:
 			srcs[c.BreakFile] += "\n/** */\n{template .zzBroken}{call .zzNoSuchTemplate /}{/template}\n"
 		}
 	}
 	if c.TrickyKeys && len(srcs) > 0 {
 		srcs[0] += c13TrickyKeys
+	}
+	if c.JSFail > 0 && len(srcs) > 0 {
+		// a template the JavaScript generator cannot translate (range() outside a loop header), failing in
+		// the middle of an expression: the failure is part of the result, and it leaves nothing behind
+		srcs[(c.JSFail-1)%len(srcs)] += "\n/** @param? a */\n{template .zzJsFail}{let $r: ($a ?: 1) + length(range(3)) /}{$r}{foreach $x in [[$a, 2], range(2)]}{$x[0] + length(range(1))}{/foreach}{/template}\n"
 	}
 	for _, k := range c.SyntaxErrors { // independent syntax errors in several files
 		if k >= 0 && k < len(srcs) {
@@ -125,7 +148,36 @@ func artefact2(c C13Case, order []int) (art string, imports int, suffixed bool, 
 	for i, k := range order {
 		on[i], os_[i] = names[k], srcs[k]
 	}
+	if c.BreakFile >= 0 && c.BreakKind == 8 {
+		// one template defined in two further files (their order follows the permutation of the others):
+		// one error, whichever of the two files the compiler meets first
+		d1, d2 := "zzdup1.soy", "zzdup2.soy"
+		if len(order) > 1 && order[0] > order[1] {
+			d1, d2 = d2, d1
+		}
+		on = append(on, d1, d2)
+		os_ = append(os_, "{namespace zz.dup}\n/** */\n{template .same}"+d1+"{/template}\n", "{namespace zz.dup}\n/** */\n{template .same}"+d2+"{/template}\n")
+	}
 	var b strings.Builder
+	if c.DupGlobals {
+		// the application adds its table of globals twice (several names collide at once): one rejection,
+		// one text
+		var derr error
+		if p := catch(func() {
+			bd := soy.NewBundle()
+			for i := range on {
+				bd.AddTemplateString(on[i], os_[i])
+			}
+			m := toDataMap(gen.MsgGlobals)
+			_, derr = bd.AddGlobalsMap(m).AddGlobalsMap(m).Compile()
+		}); p != nil {
+			return fmt.Sprintf("panic: %v", p), 0, false, nil
+		}
+		if derr == nil {
+			return "accept (globals defined twice)", 0, false, nil
+		}
+		return "reject: " + derr.Error(), 0, false, nil
+	}
 	cb, err, pn := compileBundle(on, os_, c.Prog.Prog.Globals)
 	if c13Dir != "" {
 		cb, err, pn = compileDir(c13Dir, on, os_, c.Prog.Prog.Globals)
@@ -156,6 +208,9 @@ func artefact2(c C13Case, order []int) (art string, imports int, suffixed bool, 
 	var fqs []string
 	for fq := range c.Prog.AllData {
 		fqs = append(fqs, fq)
+	}
+	if c.TrickyKeys && len(c.Prog.Prog.Files) > 0 {
+		fqs = append(fqs, c.Prog.Prog.Files[0].Namespace+".zzKeys") // (the order of keys() is part of the output)
 	}
 	sort.Strings(fqs)
 	msgs := identityBundle(cb)
@@ -389,6 +444,22 @@ func checkC13(c C13Case) Verdict {
 			maplit = true
 		}
 	}
+	// the watch tier: what a recompilation triggered by a file change installs (a few cases per process)
+	if os.Getenv("VERIF_C13_CHILD") == "" && strings.HasPrefix(base, "accept") && hashCase(c)%5 == 0 {
+		verr, why := c13Watch(c)
+		if verr != nil {
+			return bad(true, "%v", verr)
+		}
+		if c13rec != nil {
+			switch why {
+			case "":
+				c13rec.add("watch_recompilations_compared", 1)
+			case "n/a":
+			default:
+				c13rec.add("watch_inconclusive: "+why, 1)
+			}
+		}
+	}
 	v := ok(imports >= 2 || suffixed || maplit, fmt.Sprintf("files:%d", n))
 	if imports >= 2 {
 		v.Classes = append(v.Classes, "es6-imports>=2")
@@ -410,9 +481,13 @@ func genC13(t *rapid.T) C13Case {
 	g := &gen.G{T: t, P: gen.Profile{HTMLChars: true, Directives: true, Common: true, Custom: custom, CustomAlias: custom}}
 	pc := gen.GenProgram(g, gen.ProgOpts{MaxTemplates: 6, MaxDepth: 3, MaxCmds: 4, ExprDepth: 2, PosWeight: 2, CallWeight: 14, MinTemplates: 3, AllData: true, MsgStress: 60, MsgWeight: 6, NoLog: true})
 	c := C13Case{Prog: pc, BreakFile: -1, TrickyKeys: rapid.IntRange(0, 2).Draw(t, "trickyKeys") == 0}
-	if rapid.IntRange(0, 7).Draw(t, "break") == 0 {
+	if rapid.IntRange(0, 4).Draw(t, "break") == 0 {
 		c.BreakFile = rapid.IntRange(0, len(pc.Prog.Files)-1).Draw(t, "breakFile")
-		c.BreakKind = rapid.IntRange(0, 3).Draw(t, "breakKind")
+		c.BreakKind = rapid.IntRange(0, 8).Draw(t, "breakKind")
+	}
+	c.DupGlobals = rapid.IntRange(0, 19).Draw(t, "dupGlobals") == 0
+	if rapid.IntRange(0, 5).Draw(t, "jsFail") == 0 {
+		c.JSFail = 1 + rapid.IntRange(0, len(pc.Prog.Files)-1).Draw(t, "jsFailFile")
 	}
 	if rapid.IntRange(0, 5).Draw(t, "syntax") == 0 {
 		for i := range pc.Prog.Files {
